@@ -4,10 +4,14 @@ HARNESSES = {
     "codec": dict(src=["harness/h_codec.cpp"], flavour="asan"),
     "hist": dict(src=["harness/h_hist.cpp"], flavour="asan"),
     "reread": dict(src=["harness/h_reread.cpp"], flavour="asan"),
+    "tstamp": dict(src=["harness/h_tstamp.cpp"], flavour="asan"),
+    "tables": dict(src=["harness/h_tables.cpp"], flavour="asan"),
 }
 
 ENGINE_TEXT = {
     "codec": "rapidcheck + exhaustive choice-tree enumeration on CdnsEncoder/CdnsDecoder, ASan+UBSan",
+    "tstamp": "exhaustive grid + rapidcheck on Timestamp with __int128 reference, ASan+UBSan",
+    "tables": "rapidcheck state machines on CdnsBlock tables and block copies, ASan+UBSan",
     "reread": "rapidcheck on CdnsReader over truncated / re-encoded / generated files, ASan+UBSan",
     "hist": "rapidcheck model-based API histories on CdnsExporter/CdnsBlock with reference exporter model and independent reader, ASan+UBSan",
 }
@@ -156,5 +160,48 @@ PROPS = {
         technique="property-based testing: round-trip with independent-reader differential",
         assumptions=[],
         jobs=[dict(harness="reread", prop="c09_preamble", cases=(40000, 1000000), size=(30, 30))],
+    ),
+
+    "C11": dict(
+        rule="(a) state machine over the nine tables of a CdnsBlock: add (pool values to force repeats, fresh values from large domains to force growth/rehash, neighbours differing in "
+             "exactly one member, always separately built objects), find, get, clear, periodic full verification, up to ~300 ops; reference = map value->index. Oracle: equal value -> same "
+             "index and no growth, new value -> unused index, get(i) keeps denoting the value stored at i until clear, find agrees, a==b => hash(a)==hash(b). (b) record streams through the "
+             "exporter with tiny max_block_items: in the independent parse of every block no two equal entries in any table, every entry reachable from that block's own items, every "
+             "index in range. Non-trivial: >=1 dedup hit and (>=16 distinct entries or a clear) (a); >=2 flushed blocks (b).",
+        level_text="model-based state machine on the table API plus invariants on the independent parse of exporter output",
+        level_note="index numbering itself is not asserted (only stability, uniqueness and closure, as the property states)",
+        technique="property-based testing: stateful model-based testing (rapidcheck) + invariant over independent parse",
+        assumptions=[],
+        jobs=[
+            dict(harness="tables", prop="c11_tables", cases=(8000, 300000), size=(30, 200)),
+            dict(harness="hist", prop="hist_c11", cases=(6000, 150000), size=(40, 120)),
+        ],
+    ),
+    "C17": dict(
+        rule="(a) exhaustive grid tps in {1,2,3,7,10,1000} x secs,ref_secs in 0..6 x all tick pairs (49.8M pairs): get_time_offset == exact difference, add_time_offset(offset) reproduces the "
+             "instant normalised, operator< / <= agree with instants; offsets landing within +-3 s of the epoch, INT64_MIN, tps==0: refusal by std::runtime_error leaves the value unchanged. "
+             "(b,c) boundary x boundary (0,1,2^31+-1,2^32+-1, 2262 limit, largest representable second) and random over tps in [1,1e9], offsets {0,+-1,+-tps, epoch, epoch-1, INT64_MIN, random}; "
+             "128-bit reference arithmetic; UBSan on. (d) exporter histories with timed/untimed Q/R and MM in random arrival order: in the independent parse earliest-time <= every record time and every "
+             "record time equals the submitted one. Non-trivial: borrow/carry across a second, boundary value or refused offset (a-c); history with >=2 records (d).",
+        level_text="exhaustive small grid + boundary/random cases against arbitrary-precision reference; block-level invariant on independent parse",
+        level_note="offsets whose result would exceed 2^63-1 ticks are outside the quantifier and not generated",
+        technique="property-based testing: exhaustive grid + rapidcheck with __int128 reference model",
+        assumptions=[],
+        jobs=[
+            dict(harness="tstamp", prop="c17_grid", kind="enum", workers=6),
+            dict(harness="tstamp", prop="c17_arith", cases=(800000, 16000000), size=(30, 30)),
+            dict(harness="hist", prop="hist_c17", cases=(6000, 150000), size=(30, 80)),
+        ],
+    ),
+    "C19": dict(
+        rule="source block built by generated add_* / generic record adds, or returned by CdnsReader::read_block and assigned; second block obtained by copy ctor, move ctor, copy/move assignment "
+             "(onto empty and non-empty), CdnsBlockRead variants; then the source is left, modified, cleared or destroyed (heap allocated: ASan sees stale references) and a generated sequence of "
+             "re-adds of existing values / new values / gets / serialisation runs on the copy. Oracle: a block rebuilt from scratch with the same content returns the same indices and serialises to the "
+             "same independent interpretation; the copy is unaffected by the source and vice versa. Non-trivial: source destroyed or cleared before an add of an already-present value on the copy.",
+        level_text="model-based sequences with a rebuilt-from-scratch reference block, under AddressSanitizer",
+        level_note="serialisations are compared through the independent parser (AEC order is unspecified)",
+        technique="property-based testing: stateful differential testing against a rebuilt reference, ASan as memory oracle",
+        assumptions=[],
+        jobs=[dict(harness="tables", prop="c19_value", cases=(16000, 400000), size=(30, 80))],
     ),
 }
